@@ -103,6 +103,7 @@ package core
 
 //@ func (*Branch).try returns st, ts, err
 //@   safety C07
+//@   logged
 //@   requires b != nil
 //@   modifies[C06,C12;profile=pure] nothing
 //@   modifies[;profile=any] bs
@@ -135,6 +136,14 @@ package core
 //@   ensures[;profile=pure] noalias: st != nil ==> st.Bs == bs || fresh(st.Bs)
 //@   loop 0 invariant fresh(ts) && fresh(ts.Messages)
 //@   loop 0 invariant[C04] order: rangeindex >= 0 ==> !(b.Branches[0].Pattern == nil && b.Branches[0].Guard == nil && bs != nil)
+// Branches are tried one by one in their order, each at most once, and a
+// branch is tried only if every earlier one yielded neither a state nor an
+// error; the state returned is the one the last tried branch yielded.
+//@   loop 0 invariant[C04] inorder: ncalls("core.(*Branch).try") == old(ncalls("core.(*Branch).try")) + rangeindex + 1
+//@   loop 0 invariant[C04] lasttried: rangeindex >= 0 ==> lastarg("core.(*Branch).try", b) == b.Branches[rangeindex] && lastret("core.(*Branch).try", st) == nil && lastret("core.(*Branch).try", err) == nil
+//@   ensures[C04] chosen: st != nil ==> st == lastret("core.(*Branch).try", st) && ncalls("core.(*Branch).try") > old(ncalls("core.(*Branch).try")) && lastarg("core.(*Branch).try", b) == b.Branches[ncalls("core.(*Branch).try") - old(ncalls("core.(*Branch).try")) - 1]
+//@   ensures[C04] exhausted: b != nil && err == nil && st == nil && (b.Type != "message" || pending != nil) ==> ncalls("core.(*Branch).try") == old(ncalls("core.(*Branch).try")) + len(b.Branches)
+//@   ensures[C04] errfrom: err != nil ==> err == lastret("core.(*Branch).try", err)
 
 //@ spec nodeOf(s, st) = s.Nodes[st.NodeName]
 //@ spec msgBranching(n) = n.Branches != nil && n.Branches.Type == "message"
